@@ -280,10 +280,10 @@ fn plan_c15(seed: u64, tier: &str) -> Plan {
         let _ = ty;
         if *is_w {
             ops.push(Op::CreatePublisher { p: e.p, id: 100 + e.id, q: e.gq.clone(), l: None });
-            ops.push(Op::CreateWriter { id: e.id, publisher: 100 + e.id, topic: tid, q: e.q.clone(), l: Some(L { mask: vec![3] }) });
+            ops.push(Op::CreateWriter { id: e.id, publisher: 100 + e.id, topic: tid, q: e.q.clone(), l: Some(L { mask: vec![3], nil: false }) });
         } else {
             ops.push(Op::CreateSubscriber { p: e.p, id: 200 + e.id, q: e.gq.clone(), l: None });
-            ops.push(Op::CreateReader { id: e.id, subscriber: 200 + e.id, topic: tid, q: e.q.clone(), l: Some(L { mask: vec![4] }) });
+            ops.push(Op::CreateReader { id: e.id, subscriber: 200 + e.id, topic: tid, q: e.q.clone(), l: Some(L { mask: vec![4], nil: false }) });
         }
         if r.chance(0.3) {
             ops.push(Op::Sleep { us: r.range(0, 300_000) });
